@@ -110,7 +110,14 @@ def acc_input(path, dyn, xseed, shape):
     piecewise-flat (exactly zero band-pass coefficients inside the flat regions)"""
     g = np.random.default_rng(xseed)
     x = g.standard_normal(shape) * dyn
-    kind = xseed % 3
+    kind = xseed % 4
+    if kind == 3:
+        # un-normalised image data (0..255 times the range) holding a cleanly oriented texture - diagonal hatching with a period of
+        # four pixels - digitised with one grey level of noise: one diagonal sub-band is strong, its mirror image almost empty
+        ii = np.arange(shape[-2]).reshape(-1, 1) if len(shape) >= 4 else 0
+        jj = np.arange(shape[-1]).reshape(1, -1)
+        tex = 128.0 + 100.0 * np.cos(np.pi / 2 * (ii + jj))
+        return np.clip(np.round(np.broadcast_to(tex, shape) * dyn + g.standard_normal(shape)), 0, None)      # ONE grey level of noise at every scale
     if kind == 0:
         x[..., 0] *= 1e3
     elif kind == 2:
@@ -169,7 +176,10 @@ def oracle_accuracy(ck, path, dyn, xseed=0, iso=None, magbias=1e-2):
                 rowsum = o if rowsum is None else rowsum + o
         gain = float(rowsum.max())
     else:
-        gain = 64.0            # scattering: |DTCWT| gain bound for the default filters (two cascaded levels), plus the bias below
+        # scattering: the smooth magnitude is 1-Lipschitz in (re, im), so a layer's gain is bounded by the largest absolute row sum of
+        # the DTCWT it is built on (real and imaginary parts counted separately) - first order: one level; second order: two levels,
+        # or the first-order gain applied twice, whichever is larger.  Measured from unit impulses like the linear paths.
+        gain = scat_gain(2 if path == 11 else 1)
     xmax = float(np.abs(x).max())
     bound = 64 * EPS32 * (gain * xmax + (bias or 0.0))
     err = max(float((a.double() - b).abs().max()) for a, b in zip(y32, y64))
@@ -177,6 +187,71 @@ def oracle_accuracy(ck, path, dyn, xseed=0, iso=None, magbias=1e-2):
         ck.fail(desc + ': max |y32 - y64| = %.3g exceeds 64*eps32*(gain*max|x|+bias) = %.3g (gain %.3g)' % (err, bound, gain), replay); return 'diff'
     ck.oracle_ok(('acc', path, dyn, magbias), group='float32-accuracy', sample={'what': desc, 'err': err, 'bound': bound, 'gain': gain})
     return None
+
+
+def oracle_default_at_call(ck, kind, shape):
+    """a float64 module (built under a float64 default) called while the process default dtype is float32 again returns, bit
+    for bit, what it returns under a float64 default - also on axes long enough for any blocked / tiled path"""
+    from pytorch_wavelets import DWTForward, DWTInverse, DWT1DForward, DWT1DInverse, DTCWTForward, DTCWTInverse
+    desc = 'default dtype at call time: float64 %s on shape %s' % (kind, tuple(shape))
+    replay = {'oracle': 'default-at-call', 'kind': kind, 'shape': list(shape)}
+    old = torch.get_default_dtype()
+    try:
+        torch.set_default_dtype(torch.float64)
+        if kind == 'dwt1d':
+            f = DWT1DForward(J=2, wave='db4', mode='symmetric'); i = DWT1DInverse(wave='db4', mode='symmetric')
+        elif kind == 'dwt1d-per':
+            f = DWT1DForward(J=2, wave='sym5', mode='periodization'); i = DWT1DInverse(wave='sym5', mode='periodization')
+        elif kind == 'dwt2d':
+            f = DWTForward(J=2, wave='db3', mode='zero'); i = DWTInverse(wave='db3', mode='zero')
+        else:
+            f = DTCWTForward(J=2); i = DTCWTInverse()
+        x = torch.tensor(np.random.default_rng(len(shape) * 1000 + shape[-1]).standard_normal(shape))
+        res = {}
+        for dflt in (torch.float64, torch.float32):
+            torch.set_default_dtype(dflt)
+            with torch.no_grad():
+                yl, yh = f(x)
+                res[dflt] = [yl] + list(yh) + [i((yl, yh))]
+    except Exception as e:
+        ck.fail(desc + ': raises %s: %s' % (type(e).__name__, str(e)[:100]), replay); return 'raise'
+    finally:
+        torch.set_default_dtype(old)
+    for k, (a, b) in enumerate(zip(res[torch.float64], res[torch.float32])):
+        if a.dtype != b.dtype or a.shape != b.shape or not torch.equal(a, b):
+            d = float((a.double() - b.double()).abs().max()) if a.shape == b.shape else float('nan')
+            ck.fail(desc + ': output %d (%s) differs by %.3g between a float64 and a float32 process default at call time' % (k, 'reconstruction' if k == len(res[torch.float64]) - 1 else 'band', d), replay)
+            return 'diff'
+    ck.oracle_ok(('default-at-call', kind, tuple(shape)), group='default-dtype-at-call', sample={'what': desc})
+    return None
+
+
+_SCAT_GAIN = {}
+
+
+def scat_gain(order):
+    if order not in _SCAT_GAIN:
+        from pytorch_wavelets import DTCWTForward
+        old = torch.get_default_dtype()
+        try:
+            torch.set_default_dtype(torch.float64)
+            g = {}
+            for J in (1, 2):
+                m = DTCWTForward(J=J)
+                H = W = 16
+                rowsum = None
+                with torch.no_grad():
+                    for k in range(H * W):
+                        e = torch.zeros(H * W, dtype=torch.float64); e[k] = 1
+                        yl, yh = m(e.reshape(1, 1, H, W))
+                        o = torch.cat([yl.reshape(-1)] + [h.reshape(-1) for h in yh]).abs()
+                        rowsum = o if rowsum is None else rowsum + o
+                g[J] = float(rowsum.max())
+        finally:
+            torch.set_default_dtype(old)
+        _SCAT_GAIN[1] = 2.0 * g[1]
+        _SCAT_GAIN[2] = 2.0 * max(g[2], g[1] * g[1])
+    return _SCAT_GAIN[order]
 
 
 def decoys():
@@ -368,8 +443,10 @@ def run(ck):
         # the ends of the float32 range for the linear transforms (results scale exactly with the input, so the relative bound must
         # hold where intermediates are subnormal and where they approach overflow)
         jobs += [(path, dyn, ck.rng.getrandbits(31), 1e-2) for path in range(10) for dyn in ([1e-36] if q else [1e-36, 1e-37, 1e30])]
-        jobs += [(path, dyn, 3 * ck.rng.getrandbits(29) + kind, mb) for path in (10, 11) for mb in (0.0, 1.0) for kind in (0, 1, 2)
+        jobs += [(path, dyn, 4 * ck.rng.getrandbits(29) + kind, mb) for path in (10, 11) for mb in (0.0, 1.0) for kind in (0, 1, 2, 3)
                  for dyn in ([1e-5, 1.0] if q else [1e-7, 1e-5, 1e-3, 1.0, 1e4])]
+        # un-normalised oriented textures (8-, 12- and 16-bit ranges) through every path with the default bias
+        jobs += [(path, dyn, 4 * ck.rng.getrandbits(29) + 3, 1e-2) for path in ((0, 6, 10, 11) if q else range(12)) for dyn in ([1.0, 257.0] if q else [1.0, 16.0, 257.0, 1e-2])]
         isos = rt.iso_run([{'module': 'harness.props.c16', 'func': 'iso_job', 'args': {'path': p_, 'dyn': d_, 'xseed': s_, 'magbias': mb_}} for p_, d_, s_, mb_ in jobs])
         ck.extra['isolated_process_references'] = {'computed': sum(1 for v in isos if not (isinstance(v, tuple) and v and v[0] == 'error')),
                                                    'worker_errors': [v[1][-160:] for v in isos if isinstance(v, tuple) and v and v[0] == 'error'][:3]}
@@ -384,6 +461,9 @@ def run(ck):
         from .. import adoption
         rt.guard(ck, adoption.run, ck, ('load-double', 'f32-double-load'))
         rt.guard(ck, oracle_layout_modes, ck)
+        for kind, shape in [('dwt1d', (1, 1, 20011)), ('dwt1d-per', (1, 2, 17000)), ('dwt2d', (1, 1, 9001, 4)), ('dwt2d', (1, 1, 6, 8300)), ('dtcwt', (1, 1, 1040, 8))] + \
+                ([] if q else [('dwt1d', (1, 1, 70001)), ('dwt2d', (1, 1, 520, 520)), ('dtcwt', (1, 70, 16, 16))]):
+            rt.guard(ck, oracle_default_at_call, ck, kind, shape)
     finally:
         torch.set_default_dtype(old)
 
@@ -404,6 +484,8 @@ def replay(ck, path):
         adoption.run(ck, ('load-double', 'f32-double-load'))
     elif f['oracle'] == 'layout-modes':
         oracle_layout_modes(ck)
+    elif f['oracle'] == 'default-at-call':
+        oracle_default_at_call(ck, f['kind'], tuple(f['shape']))
     elif f['oracle'] == 'convert-history':
         oracle_convert_history(ck, f['path'])
     else:
